@@ -39,7 +39,12 @@ def build(modname, clsname, purge, arch, kmkind, tol):
     import klepto.keymaps as KM
     mod = importlib.import_module(modname)
     cls = getattr(mod, clsname)
-    cache = A.dict_archive('c20', cached=True) if arch == 'dict' else A.null_archive(cached=True)
+    if arch == 'dict':
+        cache = A.dict_archive('c20', cached=True)
+    elif arch.startswith('filejson:'):
+        cache = A.file_archive(arch.split(':', 1)[1], cached=True, protocol='json')
+    else:
+        cache = A.null_archive(cached=True)
     kw = {'cache': cache, 'keymap': KM.keymap() if kmkind == 'raw' else KM.stringmap(), 'tol': tol}
     if clsname not in ('no_cache', 'inf_cache'):
         kw.update(maxsize=2, purge=purge)
@@ -82,12 +87,15 @@ def units(tier, seed):
                 for arch in ('none', 'dict'):
                     for (kmkind, tol) in (('raw', None), ('string', 1)):
                         us.append((modname, cls, purge, arch, kmkind, tol, 4 if tier == 'thorough' else 3))
+            us.append((modname, cls, False, 'filejson', 'string', None, 0))
     return us
 
 
 def run_unit(unit):
     import dill
     modname, cls, purge, arch, kmkind, tol, plen = unit
+    if arch == 'filejson':
+        return run_persistent(unit)
     out = {'evaluations': 0, 'distinct': 0, 'violations': [], 'samples': [], 'counters': {'roundtrips': 0}}
     seen = set()
 
@@ -150,7 +158,46 @@ def run_unit(unit):
     return out
 
 
+def run_persistent(unit):
+    """a persistent archive remains shared storage: the round trip must not change it, and the clone is served from it"""
+    import dill
+    import os
+    import shutil
+    import tempfile
+    modname, cls, purge, arch, kmkind, tol, plen = unit
+    out = {'evaluations': 0, 'distinct': 0, 'violations': [], 'samples': [], 'counters': {'roundtrips': 0}}
+    d = tempfile.mkdtemp(prefix='c20_', dir=os.environ.get('VERIF_SCRATCH', '/tmp'))
+    try:
+        for hi, hist in enumerate([[('call', 0), ('call', 1), ('dump',)], [('call', 0), ('call', 1), ('call', 3), ('call', 4)], [('call', 1), ('dump',), ('clear',)]]):
+            loc = os.path.join(d, 'h%d.json' % hi)
+            f = build(modname, cls, purge, 'filejson:' + loc, 'string', None)
+            for op in hist:
+                apply(f, op)
+            before = state(f)
+            g = dill.loads(dill.dumps(f))
+            out['counters']['roundtrips'] += 1
+            out['distinct'] += 1
+            out['evaluations'] += 2
+            after_f, after_g = state(f), state(g)
+            if after_f['archive'] != before['archive'] or after_g != before:
+                out['violations'].append({'clause': 'persistent_archive_survives_round_trip', 'klass': '%s on a JSON file archive' % cls,
+                                          'message': '%s.%s with file_archive(protocol=json) after %r: before the round trip %r; afterwards the original sees archive %r and the clone is %r'
+                                                     % (modname, cls, hist, before, after_f['archive'], after_g),
+                                          'witness': {'unit': list(unit), 'persistent': hi}})
+                break
+        out['samples'].append({'configuration': '%s.%s on file_archive(protocol=json)' % (modname, cls)})
+    except Exception:
+        out['violations'].append({'clause': 'harness', 'klass': 'harness crashed on %s filejson' % cls, 'message': traceback.format_exc()[-700:],
+                                  'witness': {'unit': list(unit)}})
+    finally:
+        shutil.rmtree(d, ignore_errors=True)
+    return out
+
+
 def replay(w):
+    if 'persistent' in w:
+        r = run_persistent(tuple(w['unit']))
+        return bool(r['violations']), (r['violations'][0]['message'][:600] if r['violations'] else 'archive unchanged, clone equal')
     if 'prefix' not in w:
         return False, 'no replayable input recorded: %r' % (w,)
     import dill
